@@ -373,12 +373,12 @@ class Parser:
         it and to move the result into dest.
         """
         code_gen = code_gen or self._code_gen
-        if self._current_token.content == '{':
+        if self._current_token.is_mark('{'):
             return self.next_token() and self._rvalue_curly(dest, code_gen)
-        if self._current_token.content == '[':
+        if self._current_token.is_mark('['):
             return self._rvalue_fn_call(dest, code_gen)
         move_inst = OpCode.MOVE
-        uminus = self._current_token.content == '-'
+        uminus = self._current_token.is_mark('-')
         if uminus:
             self.next_token()
         value = self._current_constant()
@@ -415,7 +415,7 @@ class Parser:
     def _rvalue_curly(self, dest, code_gen):
         if not self._rvalue_expr(dest, code_gen):
             return False
-        if self.current_token != '}':
+        if not self.current_token.is_mark('}'):
             return self.token_error("Expected closing curly brace, got {}.")
         return self.next_token()
 
@@ -560,7 +560,7 @@ class Parser:
         return self.next_token()
 
     def _call_routine(self) -> bool:
-        if str(self._current_token) == '[':
+        if self._current_token.is_mark('['):
             self.next_token()
             bracketed = True
         else:
@@ -572,7 +572,7 @@ class Parser:
         self._add_instruction(OpCode.CTX)
         self.next_token()
         for param_name in routine.value.params:
-            if self.current_token == ']':
+            if self.current_token.is_mark(']'):
                 return self.trigger_error(
                     'Missing parameter {}'.format(param_name))
             if not self._rvalue():
@@ -580,7 +580,7 @@ class Parser:
             self._add_instruction(OpCode.PARAM, param_name, Register.RESULT)
         self._add_instruction(OpCode.JSR, routine.name)
         if bracketed:
-            if str(self.current_token) != ']':
+            if not self.current_token.is_mark(']'):
                 return self.trigger_error(
                     'No closing bracket for function call.')
             self.next_token()
